@@ -93,6 +93,7 @@ func boundary(c *hx.Ctx, pool []*pkey) {
 // scenario: one or two stored configurations on a chain (plus one on another chain), then probes.
 func scenario(c *hx.Ctx, pool []*pkey) {
 	w := newWorld(c, pool)
+	w.allowHostile = true
 	chain := uint64(1 + c.Intn(3))
 	var setup []opSpec
 	var cfgs []config
@@ -309,7 +310,7 @@ func multi(c *hx.Ctx, pool []*pkey) {
 			k = c.Intn(nKeys) % (i + 1) // favour repeats
 		}
 		keys = append(keys, pool[k].pub)
-		kt = append(kt, hx.CoqN(pool[k].id))
+		kt = append(kt, fmt.Sprintf("(BkKey %d)", pool[k].id))
 	}
 	m := c.Intn(n+4) - 1
 	if c.Intn(3) == 0 {
@@ -487,4 +488,156 @@ func epochs(c *hx.Ctx, pool []*pkey, order int) {
 	term := fmt.Sprintf("CSync %s %s %s %s", hx.CoqList(opTerms), kh, peers, hx.CoqList(pres))
 	c.Case(term, map[string]interface{}{"kind": "epochs", "order": order % 3, "key_headers": K})
 	c.Nontrivial("e|" + term)
+}
+
+// hostile: deterministic sweep of bookkeeper key ENCODINGS.  All eight pool keys are the stored
+// peer set; the header lists one elliptic-curve peer (P-256, P-384, SM2 in turn) in a hostile
+// encoding plus five genuinely encoded peers (six of eight = two thirds), with five signature
+// arrangements (see the loop).  A signature is tried against every unmarked key in list order, so
+// an ECDSA-scheme blob reaches a forged SM2-curve key through Go's generic curve code.  Off-curve points with an even offset keep the genuine peer's id (X and the parity of
+// Y), so they pass the membership test; SM2 off-curve points make the library's verify panic.
+func hostile(c *hx.Ctx, pool []*pkey) {
+	w := newWorld(c, pool)
+	setup := []opSpec{genesisSpec(1, 0, seq(nKeys), 77)}
+	if cl, _ := w.applyOp(setup[0]); cl != 0 {
+		c.Fail("driver:genesis", "SyncGenesisHeader refused a genesis header", setup, cl, 0)
+		return
+	}
+	salt := uint64(0)
+	for _, target := range ecPoolKeys {
+		bks := []int{target}
+		for k := 0; len(bks) < 6; k++ {
+			if k != target {
+				bks = append(bks, k)
+			}
+		}
+		for _, enc := range hostileEncs {
+			for pos := 0; pos < 2; pos++ { // forged entry first / last
+				order := append([]int{}, bks...)
+				encs := make([]string, len(order))
+				if pos == 1 {
+					order[0], order[len(order)-1] = order[len(order)-1], order[0]
+					encs[len(order)-1] = enc
+				} else {
+					encs[0] = enc
+				}
+				for mode := 0; mode < 5; mode++ {
+					// 0: every listed peer's valid signature, in key order; 1: the same rotated by one (so
+					// the first signature is tried against the first key before its own); 2: nobody
+					// signed this header - well-formed signatures on another message, key order;
+					// 3: those rotated by one; 4: a garbage blob first.
+					var sigs []sigSpec
+					for _, k := range order {
+						if mode == 0 || mode == 1 || mode == 4 {
+							sigs = append(sigs, sigSpec{"ok", k})
+						} else {
+							sigs = append(sigs, sigSpec{"other", k})
+						}
+					}
+					if mode == 1 || mode == 3 {
+						sigs = append(sigs[1:], sigs[0])
+					}
+					if mode == 4 {
+						sigs[0] = sigSpec{"garbage", int(salt)}
+					}
+					salt++
+					w.probe(setup, hdrSpec{Chain: 1, Height: 9, Salt: salt, Bks: order, BkEnc: encs, Sigs: sigs}, "hostile-"+enc)
+				}
+			}
+		}
+	}
+}
+
+// multiHostile: signature.VerifyMultiSignature called directly with key lists holding forged key
+// objects (decoded from the hostile encodings).  Observable: nil / error class / panic.  The
+// tie: when the library's verify panics or fails on a key, the function returns an error unless
+// enough other keys verify (model: BkForged never verifies).
+func multiHostile(c *hx.Ctx, pool []*pkey) {
+	w := &world{c: c, pool: pool, byPeerID: map[string]uint64{}}
+	for _, k := range pool {
+		w.byPeerID[k.peerID] = k.id
+	}
+	data := c.Bytes(32)
+	other := append([]byte("other message "), data...)
+	n := 0
+	for _, target := range ecPoolKeys {
+		for _, enc := range hostileEncs {
+			forged, err := keypair.DeserializePublicKey(w.encodeKey(target, enc))
+			if err != nil {
+				c.Count("multi-hostile:undecodable-" + enc)
+				continue
+			}
+			for variant := 0; variant < 9; variant++ {
+				n++
+				var keys []keypair.PublicKey
+				var sigs [][]byte
+				m := 0
+				switch variant {
+				case 0: // the forged key alone, its owner's valid signature
+					keys, sigs, m = []keypair.PublicKey{forged}, [][]byte{pool[target].sign(data)}, 1
+				case 1: // the forged key alone, a well-formed blob on another message
+					keys, sigs, m = []keypair.PublicKey{forged}, [][]byte{pool[target].sign(other)}, 1
+				case 2: // forged first, two genuine keys signing, m = 3
+					keys = []keypair.PublicKey{forged, pool[1].pub, pool[2].pub}
+					sigs, m = [][]byte{pool[target].sign(other), pool[1].sign(data), pool[2].sign(data)}, 3
+				case 3: // forged last, genuine signatures first, m = 3
+					keys = []keypair.PublicKey{pool[1].pub, pool[2].pub, forged}
+					sigs, m = [][]byte{pool[1].sign(data), pool[2].sign(data), pool[target].sign(data)}, 3
+				case 4: // m = 2 of 3: the two genuine keys suffice, the forged one is never needed
+					keys = []keypair.PublicKey{forged, pool[1].pub, pool[2].pub}
+					sigs, m = [][]byte{pool[1].sign(data), pool[2].sign(data)}, 2
+				case 5: // only forged keys (the same one twice), blobs of the right scheme
+					keys = []keypair.PublicKey{forged, forged}
+					sigs, m = [][]byte{pool[target].sign(other), pool[target].sign(data)}, 2
+				case 6: // forged first; an ECDSA signature is tried against it before its own key
+					keys = []keypair.PublicKey{forged, pool[1].pub, pool[2].pub}
+					sigs, m = [][]byte{pool[1].sign(data), pool[2].sign(data), pool[target].sign(other)}, 3
+				case 7: // the forged key alone, an ECDSA blob by another key
+					keys, sigs, m = []keypair.PublicKey{forged}, [][]byte{pool[1].sign(data)}, 1
+				default: // forged first, ECDSA blobs on another message only
+					keys = []keypair.PublicKey{forged, pool[1].pub}
+					sigs, m = [][]byte{pool[1].sign(other), pool[2].sign(other)}, 2
+				}
+				var kt, st []string
+				for _, k := range keys {
+					kt = append(kt, "("+w.coqBookkeeper(k, data, sigs)+")")
+				}
+				for _, raw := range sigs {
+					t, _ := w.classifyRaw(data, other, raw)
+					st = append(st, "("+t+")")
+				}
+				var verr error
+				panicked, msg := hx.Recover(func() { verr = signature.VerifyMultiSignature(data, keys, m, sigs) })
+				c.Eval()
+				if panicked {
+					verr = fmt.Errorf("PANIC: %s", msg)
+					c.Fail("multisig:panic", "VerifyMultiSignature panicked on a malformed public key", map[string]interface{}{"key": pool[target].peerID, "encoding": enc, "variant": variant}, msg, "an error")
+				}
+				cl := errClass(verr)
+				c.Count(fmt.Sprintf("multi-hostile:class=%d", cl))
+				// oracle, independent of the model: nil needs m signatures verifying under pairwise
+				// distinct key positions (checked with the library directly)
+				if cl == 0 {
+					used := map[int]bool{}
+					good := 0
+					for i := 0; i < m && i < len(sigs); i++ {
+						for j, k := range keys {
+							if ok, _ := guardedVerify(k, data, sigs[i]); ok && !used[j] {
+								used[j] = true
+								good++
+								break
+							}
+						}
+					}
+					if good < m {
+						c.Fail("multisig:accepted-without-valid-signatures", "VerifyMultiSignature returned nil although fewer than m signatures verify",
+							map[string]interface{}{"key": pool[target].peerID, "encoding": enc, "variant": variant, "m": m}, fmt.Sprintf("%d verifying", good), fmt.Sprintf(">= %d", m))
+					}
+				}
+				c.Case(fmt.Sprintf("CMulti 1 %s %s %s %d", hx.CoqList(kt), hx.CoqZ(int64(m)), hx.CoqList(st), cl),
+					map[string]interface{}{"kind": "multi-hostile", "target": target, "encoding": enc, "variant": variant, "class": cl})
+				c.Nontrivial(fmt.Sprintf("mh|%d|%s|%d", target, enc, variant))
+			}
+		}
+	}
 }
